@@ -1,5 +1,5 @@
 """Translator for C14: re-extract the declarative facts of navis' I/O code from the *current* source
-(`navis/io/base.py`, `precomputed_io.py`, `nrrd_io.py`) with `ast` and emit them as Lean definitions
+(`navis/io/base.py`, `precomputed_io.py`, `nrrd_io.py`, `mesh_io.py`, `hdf_io.py`) with `ast` and emit them as Lean definitions
 (`Gen/IoConsts.lean`).  `Props/C14.lean` proves that they coincide with the layout / decision table the
 Lean codec and policy model implement, so an edit of a dtype, the field order, the edge column swap, the
 `errors` decision table, the `format_output` filter or the NRRD header keys makes a theorem stop checking.
@@ -145,6 +145,9 @@ def _astype_dtype(call):
     return None
 
 
+_CAST_AFTER = None
+
+
 def skel_writer(pre):
     f = _func(pre, '_write_skeleton')
     dtypes, swap, order, hdr = {}, None, [], None
@@ -184,6 +187,15 @@ def skel_writer(pre):
             order.append(src[:30])
     if swap is None:
         swap = [0, 1]   # no column swap in the writer
+    # is the uint32 cast of the edges done after the id -> row-index mapping (`node_ix.loc[...]`)?
+    cast_line = max((st.lineno for st in ast.walk(f) if isinstance(st, ast.Assign) and isinstance(st.targets[0], ast.Name)
+                     and st.targets[0].id == 'edges' and _astype_dtype(st.value)), default=0)
+    map_lines = [st.lineno for st in ast.walk(f) if isinstance(st, ast.Assign) and 'node_ix.loc' in ast.unparse(st.value)
+                 and isinstance(st.targets[0], ast.Subscript)]
+    if len(map_lines) != 2:
+        raise ValueError('_write_skeleton: id -> index mapping of the edges not recognised')
+    global _CAST_AFTER
+    _CAST_AFTER = cast_line > max(map_lines)
     if hdr is None or set(dtypes) != {'vertex_positions', 'edges', 'radius'}:
         raise ValueError(f'_write_skeleton: layout not recognised ({hdr}, {dtypes})')
     return order, hdr, [(k, dtypes[k]) for k in ('vertex_positions', 'edges', 'radius')], swap
@@ -214,22 +226,42 @@ def _mults(n):
 
 
 def _frombuffers(f):
-    """[(target, dtype, read-size factors or None, reshape cols or None)] for `t = np.frombuffer(f.read(k), dt)[.reshape(-1,c)][[0]]`"""
+    """[(target, dtype, read-size factors or None, reshape cols or None, exact?)] for
+    `t = [int(] np.frombuffer(f.read(k) | _read_exactly(f, k, what), dt)[.reshape(-1,c)][[0]] [)]`"""
     res = []
     for st in f.body:
         if not (isinstance(st, ast.Assign) and isinstance(st.targets[0], ast.Name)):
             continue
         v, cols = st.value, None
+        if isinstance(v, ast.Call) and isinstance(v.func, ast.Name) and v.func.id == 'int' and v.args:
+            v = v.args[0]
         if isinstance(v, ast.Subscript):
             v = v.value
         if isinstance(v, ast.Call) and isinstance(v.func, ast.Attribute) and v.func.attr == 'reshape':
             cols = _const(v.args[-1])
             v = v.func.value
         if isinstance(v, ast.Call) and isinstance(v.func, ast.Attribute) and v.func.attr == 'frombuffer':
-            rd = v.args[0]
-            size = _mults(rd.args[0]) if rd.args else None
-            res.append((st.targets[0].id, _np_dtype(v.args[1]), size, cols))
+            size, exact = _read_call(v.args[0])
+            res.append((st.targets[0].id, _np_dtype(v.args[1]), size, cols, exact))
     return res
+
+
+def _read_call(rd):
+    """(size factors, exact?) of `f.read(k)` / `f.read()` / `_read_exactly(f, k, what)`"""
+    if isinstance(rd, ast.Call) and isinstance(rd.func, ast.Name) and rd.func.id == '_read_exactly':
+        return _mults(rd.args[1]), True
+    if isinstance(rd, ast.Call) and isinstance(rd.func, ast.Attribute) and rd.func.attr == 'read':
+        return (_mults(rd.args[0]) if rd.args else None), False
+    raise ValueError('unrecognised read expression: ' + ast.unparse(rd)[:80])
+
+
+def _attr_read_exact(f):
+    """is the vertex-attribute block inside the `for attr in ...` loop read with _read_exactly?"""
+    for loop in (n for n in ast.walk(f) if isinstance(n, ast.For)):
+        for n in ast.walk(loop):
+            if isinstance(n, ast.Call) and isinstance(n.func, ast.Attribute) and n.func.attr == 'frombuffer':
+                return _read_call(n.args[0])[1]
+    raise ValueError('read_buffer: vertex attribute loop not found')
 
 
 def skel_reader(pre):
@@ -249,7 +281,7 @@ def skel_reader(pre):
             default = ast.literal_eval(n.args[1])
     if key is None or default is None:
         raise ValueError('make_swc: edge dictionary not recognised')
-    return fb, key, val, default
+    return fb, key, val, default, _attr_read_exact(f)
 
 
 def mesh_writer(pre):
@@ -291,7 +323,18 @@ def info_literals(pre):
             rtypes.append(n.comparators[0].value)
     if attr is None or len(types) != 2:
         raise ValueError('write_info_file / PrecomputedWriter.write_any: literals not recognised')
-    return types, rtypes, attr
+    # transform: dtype of the matrix and whether per-axis units are used
+    tdt, per_axis = None, False
+    for n in ast.walk(f):
+        if isinstance(n, ast.Assign) and isinstance(n.targets[0], ast.Name) and n.targets[0].id == 'tr' and isinstance(n.value, ast.Call):
+            for kw in n.value.keywords:
+                if kw.arg == 'dtype':
+                    tdt = ast.unparse(kw.value)
+        if isinstance(n, ast.Attribute) and n.attr == 'units_xyz':
+            per_axis = True
+    if tdt is None:
+        raise ValueError('write_info_file: transform matrix not recognised')
+    return types, rtypes, attr, tdt, per_axis
 
 
 def nrrd_header(nr):
@@ -307,6 +350,30 @@ def nrrd_header(nr):
                     if isinstance(n, ast.Compare) and isinstance(n.ops[0], ast.In) and isinstance(n.left, ast.Constant)
                     and isinstance(n.comparators[0], ast.Name) and n.comparators[0].id == 'header'})
     return keys, rkeys
+
+
+def misc_facts(base, nr, h5):
+    """small behavioural facts repaired by fix: commits (a regression flips them)"""
+    he = _func(base, 'handle_errors')
+    wrapper = next(n for n in he.body if isinstance(n, ast.FunctionDef))
+    attrs_safe = False
+    for st in wrapper.body:
+        if isinstance(st, ast.Assign) and isinstance(st.targets[0], ast.Name) and st.targets[0].id == 'attrs':
+            attrs_safe = isinstance(st.value, ast.BoolOp) and isinstance(st.value.op, ast.Or)
+    ci = _func(base, 'convert_image', 'ImageReader')
+    k_cast = any(isinstance(n, ast.Call) and isinstance(n.func, ast.Name) and n.func.id == 'int' and n.args
+                 and isinstance(n.args[0], ast.Name) and n.args[0].id == 'k' for n in ast.walk(ci))
+    dp_units = any(isinstance(n, ast.Assign) and isinstance(n.targets[0], ast.Attribute) and n.targets[0].attr == 'units'
+                   and isinstance(n.value, ast.Name) and n.value.id == 'units' for n in ast.walk(ci))
+    wn = _func(h5, 'write_neurons', 'H5WriterV1')
+    fwd = []
+    for n in ast.walk(wn):
+        if isinstance(n, ast.Call) and isinstance(n.func, ast.Attribute) and n.func.attr == 'write_neurons':
+            fwd = sorted(kw.arg for kw in n.keywords if kw.arg in ('serialized', 'raw'))
+    ra = _func(h5, 'read_annotations', 'H5ReaderV1')
+    isin = [ast.unparse(n.args[1]) for n in ast.walk(ra) if isinstance(n, ast.Call) and isinstance(n.func, ast.Name)
+            and n.func.id == 'isinstance' and 'grp' in ast.unparse(n.args[0])]
+    return attrs_safe, k_cast, dp_units, fwd, (isin[0] if isin else '')
 
 
 # ------------------------------------------------------------------------------------------------
@@ -326,6 +393,7 @@ def generate(repo: Path):
     io = Path(repo) / 'navis' / 'io'
     base, pre, nr = _parse(io / 'base.py'), _parse(io / 'precomputed_io.py'), _parse(io / 'nrrd_io.py')
     mesh_io = _parse(io / 'mesh_io.py')
+    h5 = _parse(io / 'hdf_io.py')
     table, catches = policy(base)
     fo_base = format_output_filters(base, 'BaseReader')
     fo_nrrd = format_output_filters(nr, 'NrrdReader')
@@ -333,14 +401,19 @@ def generate(repo: Path):
     zsw = zip_swallows(base)
     pmap = parallel_map(base)
     w_order, w_hdr, w_dt, swap = skel_writer(pre)
-    r_fb, kcol, vcol, dflt = skel_reader(pre)
+    r_fb, kcol, vcol, dflt, attr_exact = skel_reader(pre)
     m_order, m_dt = mesh_writer(pre)
     m_fb = mesh_reader(pre)
-    itypes, rtypes, rattr = info_literals(pre)
+    itypes, rtypes, rattr, tr_dtype, tr_per_axis = info_literals(pre)
+    attrs_safe, k_cast, dp_units, h5_fwd, h5_isin = misc_facts(base, nr, h5)
     nkeys, nrkeys = nrrd_header(nr)
 
     def fb(xs):
-        return '[' + ', '.join(f'({_s(t)}, {_s(d)}, {_lst(s or [], lambda v: _s(v))}, {c if c is not None else 0})' for t, d, s, c in xs) + ']'
+        return '[' + ', '.join(f'({_s(t)}, {_s(d)}, {_lst(s or [], lambda v: _s(v))}, {c if c is not None else 0})' for t, d, s, c, _ in xs) + ']'
+
+    def ex(xs):
+        return '[' + ', '.join(f'({_s(t)}, {str(bool(e)).lower()})' for t, _, _, _, e in xs) + ']'
+    b = lambda v: str(bool(v)).lower()  # noqa
 
     src = f"""/- GENERATED by translator/gen_consts.py from navis/io/base.py, precomputed_io.py, nrrd_io.py, mesh_io.py.
    Do not edit: regenerated from the current source tree on every `./check C14`. -/
@@ -366,6 +439,11 @@ def skelWriterDtypes : List (String × String) := {_pairs(w_dt)}
 def skelEdgeColumns : List Nat := {_lst(swap, str)}
 /-- `PrecomputedSkeletonReader.read_buffer`: (target, dtype, factors of the read size, reshape columns). -/
 def skelReaderFields : List (String × String × List String × Nat) := {fb(r_fb)}
+/-- Which blocks are read with `_read_exactly` (a short read raises) rather than `f.read` (short reads pass). -/
+def skelReaderExact : List (String × Bool) := {ex(r_fb)}
+def skelAttrReadExact : Bool := {b(attr_exact)}
+/-- `_write_skeleton`: the uint32 cast of the edges comes after the id → row-index mapping. -/
+def skelEdgesCastAfterMapping : Bool := {b(_CAST_AFTER)}
 /-- `make_swc`: `dict(zip(edges[:, key], edges[:, val]))`, `.get(i, default)`. -/
 def edgeDictKeyCol : Nat := {kcol}
 def edgeDictValCol : Nat := {vcol}
@@ -375,21 +453,37 @@ def edgeDictDefault : Int := {dflt}
 def meshWriterOrder : List String := {_lst(m_order)}
 def meshWriterDtypes : List (String × String) := {_pairs(m_dt)}
 def meshReaderFields : List (String × String × List String × Nat) := {fb(m_fb)}
+def meshReaderExact : List (String × Bool) := {ex(m_fb)}
 
 /-- `info` file literals. -/
 def infoTypesWritten : List String := {_lst(itypes)}
 def infoTypesRead : List String := {_lst(sorted(rtypes))}
 def radiusAttr : String × String × Nat := ({_s(rattr['id'])}, {_s(rattr['data_type'])}, {rattr['num_components']})
+/-- `write_info_file`: dtype of the transform matrix; nm scale taken per axis (`units_xyz`). -/
+def infoTransformDtype : String := {_s(tr_dtype)}
+def infoTransformPerAxis : Bool := {b(tr_per_axis)}
 
 /-- `_write_nrrd`: header keys assigned (in order) with the expression assigned; keys the reader consults. -/
 def nrrdHeaderWritten : List (String × String) := {_pairs(nkeys)}
 def nrrdHeaderRead : List String := {_lst(nrkeys)}
+/-- `ImageReader.convert_image`: header `k` cast to int; units of 2-D point data taken from the header's voxel size. -/
+def nrrdKCastToInt : Bool := {b(k_cast)}
+def nrrdDotpropsUnitsFromHeader : Bool := {b(dp_units)}
+
+/-- `handle_errors` tolerates `attrs=None`. -/
+def policyAttrsNoneSafe : Bool := {b(attrs_safe)}
+/-- `H5WriterV1.write_neurons`: which of `serialized`/`raw` the NeuronList recursion forwards;
+`H5ReaderV1.read_annotations`: the class the annotation groups are tested against. -/
+def h5ListForwards : List String := {_lst(h5_fwd)}
+def h5AnnotationGroupClass : String := {_s(h5_isin)}
 
 end Navis.Gen.IoConsts
 """
-    meta = {'source': ['navis/io/base.py', 'navis/io/precomputed_io.py', 'navis/io/nrrd_io.py', 'navis/io/mesh_io.py'],
+    meta = {'source': ['navis/io/base.py', 'navis/io/precomputed_io.py', 'navis/io/nrrd_io.py', 'navis/io/mesh_io.py', 'navis/io/hdf_io.py'],
             'policy_table': table, 'skeleton_writer': {'order': w_order, 'header': w_hdr, 'dtypes': w_dt, 'edge_columns': swap},
-            'skeleton_reader': [list(map(str, x)) for x in r_fb], 'edge_dict': [kcol, vcol, dflt],
+            'skeleton_reader': [list(map(str, x)) for x in r_fb], 'repaired_facts': dict(
+                attr_read_exact=attr_exact, cast_after_mapping=_CAST_AFTER, transform_dtype=tr_dtype, transform_per_axis=tr_per_axis,
+                attrs_none_safe=attrs_safe, k_cast=k_cast, dotprops_units_from_header=dp_units, h5_forwards=h5_fwd, h5_isinstance=h5_isin), 'edge_dict': [kcol, vcol, dflt],
             'mesh_writer': m_dt, 'nrrd_header_keys': [k for k, _ in nkeys],
             'format_output_filters': {'BaseReader': fo_base, 'NrrdReader': fo_nrrd, 'MeshReader': fo_mesh}}
     return 'IoConsts.lean', src, meta
